@@ -93,8 +93,12 @@ def check_outputs(alg, outs, coef, xs, ncols, tmo=120):
     # pass 1: a word whose canonical difference is not identically zero is asked individually (expected sat, yields the model)
     for c in range(ncols):
         for k in range(n_out):
-            spec = 0
-            for j in range(n_in): spec = alg.add(spec, alg.mul(coef[k][j], xs[j][c]))
+            sd = {}
+            for j in range(n_in):
+                (atom, one), = xs[j][c].c.items()      # inputs are single-atom forms
+                cf = coef[k][j] % P
+                if cf: sd[atom] = (sd.get(atom, 0) + cf) % P
+            spec = alg.norm(fmode.LF({a_: v for a_, v in sd.items() if v}, 0))
             diff = alg.sub(outs[k][c], spec)
             if is_c(diff) and diff % P == 0: continue
             s = z3.Solver(); s.set('timeout', tmo * 1000); s.add(alg.toz3(diff) % P != 0); t0 = time.time(); r = s.check(); smt.STATS['queries'] += 1; smt.STATS['solver_s'] += time.time() - t0
@@ -208,10 +212,15 @@ def ob_transform(ctx, prop, kind, s_, d, ncols, dstmode, buf, a=None, pre=None, 
               sample=dict(call=desc, schedule_classes=npaths, params_of_first_class=path_params(paths[0], nm)))
 
 # ---------------------------------------------------------------- native replay
+class DefaultX(dict):
+    """counterexample inputs; words the solver left unconstrained get distinct non-zero defaults so that unwritten outputs are visible"""
+    def get(s, k, default=0):
+        if k in s: return s[k]
+        import zlib; return (zlib.crc32(k.encode()) % 1000003) * 2654435761 % P + 1
 def native_replay(ctx, d):
     """re-run a counterexample configuration on the natively compiled library (forked: it may abort or fault)"""
     kind = d['kind']; s_ = d['s']; dd = d['d']; a = d.get('a'); ncols = d['ncols']; prm = d.get('params') or {}
-    nphase = prm.get('nphase_x', 3); nblock = prm.get('nblock_x', 1); x = d.get('x') or {}
+    nphase = prm.get('nphase_x', 3); nblock = prm.get('nblock_x', 1); x = DefaultX(d.get('x') or {})
     lib = core.native(ctx.bdir, 'avx2')
     w = core.world(ctx.bdir, MODS)
     def body():
@@ -223,7 +232,7 @@ def native_replay(ctx, d):
             if kind in ('ntt', 'intt'):
                 n = (1 << dd) if dd >= 0 else 0
                 src = (U * max(1, n * ncols))(*[x.get('%s_%d_%d' % (tag, j, c), 0) for j in range(n) for c in range(ncols)])
-                dst = (U * max(1, n * ncols))() if dstmode == 'other' else (src if dstmode == 'same' else None)
+                dst = (U * max(1, n * ncols))(*([0xDEADBEEFDEADBEEF % P] * max(1, n * ncols))) if dstmode == 'other' else (src if dstmode == 'same' else None)
                 bufp = (U * max(1, n * ncols))() if buf else None
                 f = getattr(lib, (NTT if kind == 'ntt' else INTT)[1:]); f.restype = None
                 args = [this, dst, src, U(n), U(ncols), bufp, U(nphase), U(nblock)] + ([ctypes.c_bool(False), ctypes.c_bool(False)] if kind == 'ntt' else [ctypes.c_bool(False)])
@@ -231,7 +240,7 @@ def native_replay(ctx, d):
                 return [out[i] for i in range(n * ncols)], [src[i] for i in range(n * ncols)]
             N = 1 << a; NE = 1 << dd; inplace = dstmode == 'same'
             inp = (U * ((NE if inplace else N) * ncols))(*[x.get('%s_%d_%d' % (tag, j, c), 0) for j in range(N) for c in range(ncols)])
-            out = inp if inplace else (U * (NE * ncols))()
+            out = inp if inplace else (U * (NE * ncols))(*([0xDEADBEEFDEADBEEF % P] * (NE * ncols)))
             bufp = (U * (NE * ncols))() if buf else None
             f = getattr(lib, EXT[1:]); f.restype = None
             f(this, out, inp, U(NE), U(N), U(ncols), bufp, U(nphase), U(nblock))
